@@ -280,7 +280,9 @@ func (i *goslicePropIter) next() (propIterItem, iterNextFunc) {
 		return propIterItem{name: newStringValue(name), enumerable: _ENUM_TRUE}, i.next
 	}
 
-	return propIterItem{}, nil
+	// continue with the own property "length", as stringKeys() does
+	i.o.updateLen()
+	return i.o.baseObject.iterateStringKeys()()
 }
 
 func (o *objectGoSlice) iterateStringKeys() iterNextFunc {
